@@ -582,6 +582,100 @@ pub fn run(args: &Args, c13: bool) -> Report {
         rep.set("racing_cancel_trials", json!(trials));
         rep.set("racing_cancel_trials_where_thread0_did_not_finish_first", json!(raced));
     }
+    // (d) C13 only: a resume that arrives while the producer is ALREADY parked in wait_for_reconnect is consumed by that wait,
+    // exactly like one staged before the wait (the sequential order the model part drives): the next wait must not hand out the
+    // same resume again (a second replay = duplicated bytes at the receiver), and a fresh resume afterwards is still delivered.
+    if c13 {
+        use std::sync::atomic::{AtomicU64, Ordering};
+        let trials = if miri { 3 } else { args.budget(400, 6_000) };
+        let parked = std::sync::Arc::new(AtomicU64::new(0));
+        let p2 = parked.clone();
+        repe::verif_hooks::set_probe(Some(std::sync::Arc::new(move |point: &'static str, _id: u64| {
+            if point == "stream.reconnect.park" {
+                p2.fetch_add(1, Ordering::SeqCst);
+            }
+        })));
+        let (mut parked_first, mut staged_first, mut not_forced) = (0u64, 0u64, 0u64);
+        for t in 0..trials {
+            let mut r = rng.fork(0x5000_0000 + t);
+            let unit = 1 + r.below(8);
+            let n = 1 + r.below(6);
+            let ctl = TransferControl::with_replay_capacity(1 << 20, 1 << 20);
+            for i in 0..n {
+                ctl.push_replay(i * unit, unit, false, vec![i as u8; unit as usize]);
+                ctl.record_sent((i + 1) * unit);
+            }
+            let off = unit * r.below(n + 1);
+            let park_first = r.below(4) != 0;
+            let kicks = r.below(3);
+            let before = parked.load(Ordering::SeqCst);
+            let (tx, rx) = std::sync::mpsc::channel();
+            if !park_first {
+                let _ = ctl.request_resume(peer(7), 0, off);
+            }
+            let c2 = ctl.clone();
+            let w = std::thread::spawn(move || {
+                let _ = tx.send(c2.wait_for_reconnect(Duration::from_secs(if cfg!(miri) { 1_000_000 } else { 3600 })));
+            });
+            if park_first {
+                let t0 = std::time::Instant::now();
+                while parked.load(Ordering::SeqCst) == before && t0.elapsed() < Duration::from_secs(10) {
+                    std::thread::yield_now();
+                }
+                if parked.load(Ordering::SeqCst) == before {
+                    not_forced += 1;
+                }
+                for _ in 0..kicks {
+                    ctl.verif_notify_all();
+                }
+                let _ = ctl.request_resume(peer(7), 0, off);
+            }
+            let first = rx.recv_timeout(Duration::from_secs(if miri { 1000 } else { 15 }));
+            rep.eval();
+            rep.distinct(&("parked-consume", park_first, kicks, unit, n, off));
+            let scen = json!({"part": "resume-while-parked", "unit": unit, "chunks": n, "resume_offset": off, "parked_first": park_first, "spurious_wakes_before_resume": kicks, "ops": []});
+            match first {
+                Ok(ReconnectOutcome::ResumeReady(pr)) if pr.resume_at_offset == off => {}
+                Ok(other) => {
+                    found.lock().unwrap().push(("C13:resume-while-parked:wrong-outcome".into(), format!("wait_for_reconnect returned {other:?} for an accepted resume at {off} (parked first: {park_first})"), scen.clone()));
+                    let _ = w.join();
+                    continue;
+                }
+                Err(_) => {
+                    // a lost wake-up is C12's subject; here it only means this trial observed nothing
+                    ctl.cancel("harness-cleanup");
+                    not_forced += 1;
+                    let _ = w.join();
+                    continue;
+                }
+            }
+            let _ = w.join();
+            if park_first { parked_first += 1 } else { staged_first += 1 }
+            let second = ctl.wait_for_reconnect(Duration::ZERO);
+            if let ReconnectOutcome::ResumeReady(pr) = &second {
+                found.lock().unwrap().push((
+                    format!("C13:pending-resume-consumption:{}", if park_first { "resume-arrived-while-parked" } else { "resume-staged-before-wait" }),
+                    format!("one accepted resume at offset {off} was handed out twice: the wait that was {} returned ResumeReady({off}), and the next wait_for_reconnect returned ResumeReady({}) although nobody resumed again", if park_first { "already parked when it arrived" } else { "started after it" }, pr.resume_at_offset),
+                    scen.clone(),
+                ));
+                continue;
+            }
+            // a fresh resume is still delivered, once
+            let off2 = unit * r.below(n + 1);
+            if ctl.request_resume(peer(8), 0, off2).is_ok() {
+                let third = ctl.wait_for_reconnect(Duration::ZERO);
+                let fourth = ctl.wait_for_reconnect(Duration::ZERO);
+                if !matches!(&third, ReconnectOutcome::ResumeReady(pr) if pr.resume_at_offset == off2) || matches!(fourth, ReconnectOutcome::ResumeReady(_)) {
+                    found.lock().unwrap().push(("C13:pending-resume-consumption:fresh-resume-after-parked-one".into(), format!("after a consumed resume, a fresh accepted resume at {off2} gave {third:?} then {fourth:?}"), scen));
+                }
+            }
+        }
+        repe::verif_hooks::set_probe(None);
+        rep.set("resume_while_parked_trials", json!({"resume_arrived_while_parked": parked_first, "resume_staged_before_wait": staged_first, "schedule_not_forced": not_forced}));
+        if parked_first == 0 {
+            rep.inconclusive("no trial had the resume arrive while the producer was parked");
+        }
+    }
     quiet_panics(false);
     rep.set("random_operations_checked", json!(total_ops));
     // shortest witness first per signature
